@@ -356,6 +356,7 @@ spif_url_unparse(spif_url_t self)
     ASSERT_RVAL(!SPIF_URL_ISNULL(self), FALSE);
     spif_str_done(SPIF_STR(self));
     spif_str_init_from_ptr(SPIF_STR(self), SPIF_CHARPTR(""));
+    spif_obj_set_class(SPIF_OBJ(self), SPIF_CLASS_VAR(url));
 
     /* First, proto followed by a colon. */
     if (!SPIF_STR_ISNULL(self->proto)) {
